@@ -601,7 +601,7 @@ type pathEnd struct {
 //   - arrivals at a block with the same event history, boolean phi choices and
 //     loop state are merged, so branches without events do not multiply paths.
 func (w *World) enumPaths(fn *ssa.Function, eval func(cond ssa.Value) (val bool, known bool), event func(in ssa.Instruction) string, max int) ([]pathEnd, bool) {
-	e := &enumerator{w: w, eval: eval, event: event, max: max, complete: true, evCache: map[ssa.Instruction]string{}, hasEv: map[*ssa.Function]int{}}
+	e := &enumerator{w: w, eval: eval, event: event, max: max, complete: true, evCache: map[ssa.Instruction]string{}, hasEv: map[*ssa.Function]int{}, pathSensitiveEvents: w.psEvents}
 	if len(fn.Blocks) == 0 {
 		return nil, true
 	}
@@ -633,6 +633,9 @@ type enumerator struct {
 	// (w.cur then holds the phi bindings of that arrival)
 	startBlock, stopBlock *ssa.BasicBlock
 	retErr                ssa.Value
+	// fnEnv: function values bound to function-typed parameters of the helpers
+	// being expanded (innermost last)
+	fnEnv []map[*ssa.Parameter]ssa.Value
 }
 
 type pathState struct {
@@ -640,6 +643,8 @@ type pathState struct {
 	phi    map[*ssa.Phi]ssa.Value
 	// callTerm: how an expanded callee returned on this path (ok | err | unknown)
 	callTerm map[*ssa.Call]string
+	// defers registered on this path of the activation (run at RunDefers)
+	defers []*ssa.Defer
 }
 
 func (e *enumerator) label(in ssa.Instruction, depth int) string {
@@ -677,6 +682,19 @@ func (e *enumerator) bearsEvents(fn *ssa.Function, d int) bool {
 			}
 			if c, ok := in.(*ssa.Call); ok && !res {
 				if cal := c.Common().StaticCallee(); cal != nil && cal != fn && e.bearsEvents(cal, d+1) {
+					res = true
+				}
+				// a closure handed to the callee may be called there
+				for _, a := range c.Common().Args {
+					if _, isSig := a.Type().Underlying().(*types.Signature); isSig {
+						if f, _ := e.w.calleeOfValue(a); f != nil && f != fn && e.bearsEvents(f, d+1) {
+							res = true
+						}
+					}
+				}
+			}
+			if df, ok := in.(*ssa.Defer); ok && !res {
+				if f, _ := e.w.calleeOfValue(df.Common().Value); f != nil && f != fn && e.bearsEvents(f, d+1) {
 					res = true
 				}
 			}
@@ -756,6 +774,8 @@ func (e *enumerator) walkFn(fn *ssa.Function, ev []string, depth int, k func(ev 
 			e.complete = false
 			return
 		}
+		nDefers := len(st.defers)
+		defer func() { st.defers = st.defers[:nDefers] }()
 		if from == 0 {
 			if depth == 0 && e.stopBlock == b && st.onPath[b] >= 1 {
 				e.w.cur = &pathCtxt{st: st, eval: e.eval}
@@ -784,17 +804,47 @@ func (e *enumerator) walkFn(fn *ssa.Function, ev []string, depth int, k func(ev 
 			switch t := in.(type) {
 			case *ssa.Call:
 				cal := t.Common().StaticCallee()
-				if cal != nil && cal != fn && depth < 2 && lbl == "" && e.bearsEvents(cal, 0) && len(cal.Params) == len(t.Common().Args) {
+				callArgs := t.Common().Args
+				if cal == nil && !t.Common().IsInvoke() {
+					// a function value the path determines: a handler picked in a switch, a
+					// bound method, a closure held in a local
+					fv := e.resolve(t.Common().Value, st)
+					// a function-typed parameter of a helper being expanded: what the caller passed
+					if pr, isParam := fv.(*ssa.Parameter); isParam {
+						for j := len(e.fnEnv) - 1; j >= 0; j-- {
+							if av, ok := e.fnEnv[j][pr]; ok {
+								fv = av
+								break
+							}
+						}
+					}
+					if f, rcv := e.w.calleeOfValue(fv); f != nil {
+						cal = f
+						if rcv != nil {
+							callArgs = append([]ssa.Value{rcv}, callArgs...)
+						}
+					}
+				}
+				if cal != nil && cal != fn && depth < 2 && lbl == "" && e.bearsEvents(cal, 0) && len(cal.Params) == len(callArgs) {
 					env := map[*ssa.Parameter]string{}
 					for j, p := range cal.Params {
 						// arguments are printed with helper results resolved, so a value
 						// computed by one helper and handed to the next keeps its identity
 						e.w.cur = &pathCtxt{st: st, eval: e.eval}
-						env[p] = e.w.canonResolved(e.resolve(t.Common().Args[j], st))
+						env[p] = e.w.canonResolved(e.resolve(callArgs[j], st))
 					}
 					next := i + 1
 					e.w.inlineEnv = append(e.w.inlineEnv, env)
 					depthEnv := len(e.w.inlineEnv)
+					// function values handed down (a closure to be called by the helper)
+					fenv := map[*ssa.Parameter]ssa.Value{}
+					for j, p := range cal.Params {
+						if _, isSig := p.Type().Underlying().(*types.Signature); isSig {
+							fenv[p] = e.resolve(callArgs[j], st)
+						}
+					}
+					e.fnEnv = append(e.fnEnv, fenv)
+					defer func() { e.fnEnv = e.fnEnv[:len(e.fnEnv)-1] }()
 					e.walkFn(cal, ev, depth+1, func(ev2 []string, ret *ssa.Return, term string) {
 						if term == "panic" || term == "loop" {
 							k(ev2, nil, term)
@@ -838,6 +888,49 @@ func (e *enumerator) walkFn(fn *ssa.Function, ev []string, depth int, k func(ev 
 						k(ev, nil, "panic")
 						return
 					}
+				}
+			case *ssa.Defer:
+				st.defers = append(st.defers, t)
+			case *ssa.RunDefers:
+				// deferred closures that bear events run here, last registered first
+				ds := append([]*ssa.Defer(nil), st.defers...)
+				next := i + 1
+				var runFrom func(idx int, ev []string)
+				runFrom = func(idx int, ev []string) {
+					for ; idx >= 0; idx-- {
+						d := ds[idx]
+						cal, _ := e.w.calleeOfValue(d.Common().Value)
+						if sc := d.Common().StaticCallee(); sc != nil {
+							cal = sc
+						}
+						if cal == nil || cal == fn || depth >= 2 || !e.bearsEvents(cal, 0) || len(cal.Params) != len(d.Common().Args) {
+							continue
+						}
+						env := map[*ssa.Parameter]string{}
+						for j, p := range cal.Params {
+							env[p] = e.w.Canon(e.resolve(d.Common().Args[j], st))
+						}
+						e.w.inlineEnv = append(e.w.inlineEnv, env)
+						depthEnv := len(e.w.inlineEnv)
+						rest := idx - 1
+						e.walkFn(cal, ev, depth+1, func(ev2 []string, ret *ssa.Return, term string) {
+							if term == "panic" || term == "loop" {
+								k(ev2, nil, term)
+								return
+							}
+							savedEnv := e.w.inlineEnv
+							e.w.inlineEnv = append([]map[*ssa.Parameter]string(nil), e.w.inlineEnv[:depthEnv-1]...)
+							runFrom(rest, ev2)
+							e.w.inlineEnv = savedEnv
+						})
+						e.w.inlineEnv = e.w.inlineEnv[:depthEnv-1]
+						return
+					}
+					walk(b, next, ev)
+				}
+				if len(ds) > 0 {
+					runFrom(len(ds)-1, ev)
+					return
 				}
 			case *ssa.Return:
 				e.retErr = nil
@@ -952,6 +1045,47 @@ func (e *enumerator) termOf(ret *ssa.Return, st *pathState, fn *ssa.Function) st
 		}
 	}
 	return "unknown"
+}
+
+// calleeOfValue: the function a function value stands for — a function, a
+// closure, or a bound method value (then also its receiver).
+func (w *World) calleeOfValue(v ssa.Value) (*ssa.Function, ssa.Value) {
+	switch y := stripConv(v).(type) {
+	case *ssa.Function:
+		return y, nil
+	case *ssa.MakeClosure:
+		f, ok := y.Fn.(*ssa.Function)
+		if !ok {
+			return nil, nil
+		}
+		if strings.HasSuffix(f.Name(), "$bound") && len(y.Bindings) == 1 {
+			// the wrapper's body is one call of the method on its free variable
+			for _, b := range f.Blocks {
+				for _, in := range b.Instrs {
+					if c, isC := in.(*ssa.Call); isC {
+						if m := c.Common().StaticCallee(); m != nil {
+							return m, y.Bindings[0]
+						}
+					}
+				}
+			}
+			return nil, nil
+		}
+		return f, nil
+	}
+	return nil, nil
+}
+
+// CalleeOnPath: the callee of a dynamic call as the path being enumerated
+// determines it (nil when it does not), with the receiver of a bound method.
+func (w *World) CalleeOnPath(c ssa.CallInstruction) (*ssa.Function, ssa.Value) {
+	if f := c.Common().StaticCallee(); f != nil {
+		return f, nil
+	}
+	if c.Common().IsInvoke() {
+		return nil, nil
+	}
+	return w.calleeOfValue(w.phiOnPath(c.Common().Value))
 }
 
 func isBoolType(t types.Type) bool {
